@@ -22,7 +22,7 @@ TIMEOUT = {'quick': 1500, 'thorough': 3 * 3600}
 RULE = ('A case is one serialised triple (from a random call sequence or a module) replayed phase by phase, or one malformed variant of a phase file. '
         'distinct_nontrivial = distinct triples whose files contain an ESubst/SSubst, MetaVar with constraints, Quantifier, Generalization or Publish.')
 ASSUMPTIONS = ['the tracker does not record published claims itself: before the proof phase the fresh interpreter is given the claims it was shown in the claim phase, in declared order']
-FLOORS = {'quick': {'roundtrips': 1500, 'phase_streams:gamma': 500, 'phase_streams:claim': 500, 'phase_streams:proof': 500, 'truncations': 2000, 'unknown_opcode_insertions': 2000,
+FLOORS = {'quick': {'roundtrips': 1500, 'call_sequence_states_compared': 5000, 'phase_streams:gamma': 500, 'phase_streams:claim': 500, 'phase_streams:proof': 500, 'truncations': 2000, 'unknown_opcode_insertions': 2000,
                     **{f'roundtrip_op:{n}': 100 for n in ('EVar', 'SVar', 'Symbol', 'Implies', 'App', 'Exists', 'Mu', 'MetaVar', 'CleanMetaVar', 'ESubst', 'SSubst', 'Prop1', 'Prop2', 'Prop3',
                                                           'Quantifier', 'ModusPonens', 'Generalization', 'Instantiate', 'Pop', 'Save', 'Load', 'Publish')}}}
 FLOORS['thorough'] = dict(FLOORS['quick'], roundtrips=30000)
@@ -212,7 +212,13 @@ def shard(ctx):
         ser, triple, claims = c04.one_sequence(null, rng, memo=(k % 4 == 3))
         fresh = roundtrip(ctx, triple, claims, 'call_sequence')
         if fresh is not None:
-            compare_states(ctx, ser, fresh, triple, 'call_sequence')
+            if getattr(ser, '_pi2v_sequence_refused', False):
+                # the toolkit refused the last call by raising; what the raising call left behind in the serializer is not a state the
+                # emitted bytes describe (the bytes still have to replay: roundtrip above)
+                ctx.count('call_sequences_ended_by_refusal')
+            else:
+                ctx.count('call_sequence_states_compared')
+                compare_states(ctx, ser, fresh, triple, 'call_sequence')
             malformed(ctx, rng, triple, claims, 6)
         if k % 800 == 0:
             ctx.sample({'gamma': triple[0].hex()[:100], 'claim': triple[1].hex()[:100], 'proof': triple[2].hex()[:200]})
